@@ -6,7 +6,7 @@
                            attributes); defined for requests whose JSON objects have no repeated member names.
    [read_row fixed es row] the trace read path (OutputQuery) on a stored row.
    Accepted spans have 16-byte trace ids and 8-byte span ids (onSpan rejects every other width): part of [row_of]. *)
-From Coq Require Import List ZArith NArith Bool String Permutation.
+From Coq Require Import List ZArith NArith Bool String Ascii Permutation.
 From Qryn Require Import model.Spans model.SpansChunk model.SpansWire model.SpansStore model.SpansJson model.SpansWireX model.SpansWireY proofs.SpansWireXProofs proofs.SpansWireYProofs proofs.SpansProofs proofs.SpansChunkProofs
   proofs.SpansTimeProofs proofs.SpansWireProofs proofs.SpansStoreProofs proofs.SpansJsonProofs proofs.SpansNumProofs.
 Import ListNotations.
@@ -47,6 +47,14 @@ Theorem read_back : forall inp rows ps,
   Forall2 (fun p sr => reads_back p (read_row fixed (in_elems inp) (fst sr))) ps rows.
 Proof. exact read_back_l. Qed.
 Print Assumptions read_back.
+
+(* ONE query over all stored rows of an accepted request ([output_query] = OutputQuery's loop: a row of an unknown payload type is passed
+   over, the first row that does not decode ends the output) returns every pushed span, in order. *)
+Theorem one_query_reads_all : forall inp rows ps,
+  decode fixed inp = Some rows -> pushed_of inp = Some ps -> in_range inp ->
+  Forall2 (fun p r => reads_back p (Some r)) ps (output_query fixed (in_elems inp) (map fst rows)).
+Proof. exact one_query_reads_all_l. Qed.
+Print Assumptions one_query_reads_all.
 
 (* The oracle the check evaluates on the IMPLEMENTATION's observations (spec_ok: rows_ok, tags_ok, reads_ok) accepts the
    model's own output for every request: the three clauses above are what the correspondence run tests. *)
@@ -322,3 +330,11 @@ Print Assumptions span_decoder_skips_other_fields.
 Theorem all_fields_extends_events_status : forall s x, enc_spany s x no_more = enc_spanx s x.
 Proof. exact enc_spany_no_more. Qed.
 Print Assumptions all_fields_extends_events_status.
+
+(* parseOTLP sends a payload beginning with '{' to parseOTLPJson (the legacy JSON form, written by the JS writer only) and every other
+   payload to proto.Unmarshal.  The bytes this writer stores for a span of accepted id widths begin with 0x0A (field 1, length-delimited):
+   no row written by this writer is ever read through the legacy JSON path; that path concerns rows of the former JS writer only. *)
+Theorem stored_payload_never_legacy_json : forall s x y, id_widths_ok (o_trace s) (o_span s) = true ->
+  exists r, enc_spany s x y = String (Ascii.ascii_of_N 10) r /\ Ascii.ascii_of_N 10 <> "{"%char.
+Proof. exact enc_spany_first_byte. Qed.
+Print Assumptions stored_payload_never_legacy_json.
